@@ -66,6 +66,11 @@ class Library:
         if isinstance(blocks, Block):
             blocks = [blocks]
 
+        # Fail before anything is removed if one of the blocks is not in the library
+        remaining = list(self._blocks)
+        for block in blocks:
+            remaining.remove(block)
+
         for block in blocks:
             self._blocks.remove(block)
             if isinstance(block, Entry):
